@@ -53,8 +53,9 @@ def uni_or_empty(a):
 # ============================================================================
 # (a) writers
 # ============================================================================
-def gen_writers(rng, tier):
-    fresh_registry()
+def gen_writers(rng, tier, keep=False):
+    if not keep:
+        fresh_registry()
     for _ in range(n_cases(tier, 80, 900)):
         u, desc, ctx = new_universe(rng)
         for _ in range(5):
@@ -305,11 +306,98 @@ def inject_cr(rng, v):
     return v
 
 
+def desc_namespaces(desc):
+    """the namespaces a universe writes names in (classes, fields)"""
+    out = []
+    for c in desc["classes"]:
+        for ns in [(c.get("meta") or {}).get("namespace")] + [f.get("metadata", {}).get("namespace") for f in c["fields"]]:
+            if ns and not ns.startswith("##") and ns not in out:
+                out.append(ns)
+    return out
+
+
+USER_PREFIXES = ["d", "p1", "ns7", "x-y", "_u"]
+
+
+def user_ns_map(rng, desc):
+    """a user prefix map for render(obj, ns_map) — the rarely used corners of `clean_prefixes`: the default
+    namespace under the None or the "" key, before or after a prefix for the same URI, several prefixes
+    for one URI, a default for another URI, unused prefixes, empty values"""
+    uris = desc_namespaces(desc) or ["urn:unused"]
+    ns = rng.choice(uris)
+    other = rng.choice(uris + ["urn:other"])
+    p, q = rng.sample(USER_PREFIXES, 2)
+    dflt = rng.choice([None, ""])
+    family = [
+        [[p, ns]],
+        [[dflt, ns]],
+        [[dflt, ns], [p, ns]],
+        [[p, ns], [dflt, ns]],
+        [[p, ns], [q, ns]],
+        [[p, ns], [q, ns], [dflt, ns]],
+        [[p, ns], [dflt, other]],
+        [[dflt, other], [p, ns]],
+        [[p, other], [q, ns], ["", ns], [None, ns]],
+        [[None, ns], ["", other], [p, ns]],
+        [[p, ""], [q, ns]],
+        [[p, "urn:unused"], [dflt, ns]],
+        [[u_p, u] for u_p, u in zip(USER_PREFIXES, uris)] + [[dflt, uris[-1]]],
+    ]
+    return rng.choice(family)
+
+
+def gen_user_maps(rng, tier):
+    """user prefix maps for `clean_prefixes`: every map of up to 3 entries over keys {None, "", "d", "p1"} and
+    values {NS, OTHER, ""}, then the family of `user_ns_map` on random universes"""
+    import itertools
+
+    keys = [None, "", "d", "p1"]
+    vals = ["urn:a", "urn:b", ""]
+    for n in range(0, 4):
+        for ks in itertools.permutations(keys, n):
+            for vs in itertools.product(vals, repeat=n):
+                yield {"ns_map": [[k, v] for k, v in zip(ks, vs)]}
+    for _ in range(n_cases(tier, 100, 2000)):
+        desc, _ = D.qualified_attr_universe(rng)
+        yield {"ns_map": user_ns_map(rng, desc)}
+
+
+def impl_user_map(a):
+    from xsdata.utils import namespaces
+
+    d = {k: v for k, v in a["ns_map"]}
+    m = namespaces.clean_prefixes(d) if d else {}
+    return {"ok": [[k, v] for k, v in m.items()]}
+
+
+def gen_qualified_attrs(rng, tier):
+    """objects with namespace-qualified attributes, rendered with a user prefix map"""
+    for _ in range(n_cases(tier, 25, 300)):
+        desc, build = D.qualified_attr_universe(rng)
+        try:
+            u = B.Universe(desc)
+        except Exception:  # noqa: BLE001
+            continue
+        _UNIS[u.modname] = u
+        for _ in range(6):
+            yield {"value": u.to_val(build(u, rng)), "ignore_default_attributes": rng.random() < 0.2,
+                   "indent": rng.choice([None, None, "  "]), "ns_map": user_ns_map(rng, desc), "desc": desc, "_uni": u.modname}
+
+
 def gen_writers_oracle(rng, tier):
-    for a in gen_writers(rng, tier):
+    fresh_registry()
+    yield from gen_qualified_attrs(rng, tier)
+    for a in gen_writers(rng, tier, keep=True):
+        a = dict(a)
         if rng.random() < 0.08:
-            a = dict(a)
             a["value"] = inject_cr(rng, a["value"])
+        r = rng.random()
+        if r < 0.45:
+            a["ns_map"] = user_ns_map(rng, a["desc"])
+        if rng.random() < 0.15:
+            a["schema_location"] = rng.choice(["urn:a a.xsd", "http://example.com/ns s.xsd urn:b b.xsd"])
+        if rng.random() < 0.1:
+            a["no_namespace_schema_location"] = "local.xsd"
         yield a
 
 
@@ -319,7 +407,9 @@ def oracle_writers(a):
         obj = u.from_val(a["value"])
     except Exception:  # noqa: BLE001
         return None
-    kw = dict(indent=a.get("indent"), ignore_default_attributes=a.get("ignore_default_attributes", False))
+    kw = dict(indent=a.get("indent"), ignore_default_attributes=a.get("ignore_default_attributes", False),
+              ns_map=a.get("ns_map"), schema_location=a.get("schema_location"),
+              no_namespace_schema_location=a.get("no_namespace_schema_location"))
     outs = {b: D.real_infoset(u, obj, b, **kw) for b in ("native", "lxml", "tree")}
     canon = {}
     for b, o in outs.items():
@@ -660,6 +750,9 @@ CORRS = [
          describe="XmlParser x {native, lxml} x {bytes, str, path, file, lxml tree/element, ET tree/element} on documents with "
                   "random declaration layouts and lexical variation: all equal and equal to the model's parse of the infoset; "
                   "RecordParser event streams of both handlers equal"),
+    Corr("ns.clean", gen_user_maps, impl_user_map,
+         describe="clean_prefixes as XmlSerializer.write / TreeSerializer.render call it, on all user maps of up to 3 entries over "
+                  "the keys None, '', 'd', 'p1' (every order) and on the user-map family of the writers oracle, vs model serializerNsMap"),
     Corr("c08.union_record", lambda rng, tier: ({"toks": D.union_tokens(a["tree"]), **a} for a in gen_union_record(rng, tier)),
          impl_union_record,
          describe="a real UnionNode fed by the lxml handler's loop (live element.attrib views, element.clear() at every end) "
